@@ -22,6 +22,19 @@ def _load(t):
     return t2
 
 
+import re as _re
+
+_REBIND = _re.compile(r"^\s*([A-Za-z_][\w.]*)\s*:=\s*(.+)$", _re.S)
+
+
+def _store(t):
+    import copy
+
+    t2 = copy.deepcopy(t)
+    t2.ctx = ast.Store()
+    return t2
+
+
 def _safe_eq(x, y):
     try:
         return bool(x == y)
@@ -105,6 +118,12 @@ def assigned_names(stmts):
 
         def visit_FunctionDef(self, n):
             names.add(n.name)
+
+        def visit_Yield(self, n):
+            names.add("__yield__")  # the hidden list of yielded values
+            self.generic_visit(n)
+
+        visit_YieldFrom = visit_Yield
 
         def visit_Lambda(self, n):
             pass
@@ -377,6 +396,7 @@ class StmtMixin:
                     x = fresh(et, "cx")
                     guard = seq_contains_elem(lift(info.seqval), x)
                     models.seq_member_facts(st, lift(info.seqval))  # so that xs[i] is known to be one of the elements
+                    models.seq_position_witness(st, lift(info.seqval), et.sort())  # .. and every element sits at a position
                     item = Val(et, x)
                     kelem = et
                 else:
@@ -631,6 +651,28 @@ class StmtMixin:
             for s2, o in outs:
                 if o.kind == "normal":
                     for h in hint:
+                        rb = _REBIND.match(h)
+                        if rb:
+                            # "target := expr": prove target == expr, then RE-BIND the target to the (smaller) term of expr
+                            tnode = ast.parse(rb.group(1).strip(), mode="eval").body
+                            save = self.spec_mode
+                            self.spec_mode = True
+                            try:
+                                nv = self.eval(ast.parse(rb.group(2).strip(), mode="eval").body, s2)
+                                cur = self.eval(tnode, s2)
+                            finally:
+                                self.spec_mode = save
+                            g = ops.equal(cur, nv)
+                            self.oblige(s2, g, "assert", f"hint@L{node.lineno}", node, info={"clause": h})
+                            s2.assume(z3bool(g))
+                            if not isinstance(tnode, (ast.Name, ast.Attribute)):
+                                raise ContractMisfit(f"re-binding hint '{h}': the target must be a local or an attribute")
+                            if cur.ty is not PYOBJ:
+                                nv = coerce(nv, cur.ty)
+                            keep = set(s2.mutated), set(s2.rebound)
+                            self.assign_target(_store(tnode), nv, s2, node, mutate=True)
+                            s2.mutated, s2.rebound = keep  # a proved equality changes nothing for the caller
+                            continue
                         g = self.clause(h, s2)
                         self.oblige(s2, g, "assert", f"hint@L{node.lineno}", node, info={"clause": h})
                         s2.assume(z3bool(g))
@@ -840,6 +882,8 @@ class StmtMixin:
             want = self.c.locals.get(t.id) if self.c else None
             if want is not None and not (v.ty is PYOBJ and v.is_py and not isinstance(v.py, ops._CT)):
                 v = coerce(v, want)
+            if not mutate and t.id in getattr(self, "_params", ()) and t.id not in st.rebound and ("param_final", t.id) not in st.ghost:
+                st.ghost[("param_final", t.id)] = st.env.get(t.id)  # the caller-visible final value of a re-bound parameter
             st.env[t.id] = v
             if not mutate:
                 st.escaped.discard(t.id)
@@ -863,6 +907,16 @@ class StmtMixin:
 
             recv = self.eval(t.value, st)
             if isinstance(t.slice, ast.Slice):
+                sl = t.slice
+                if sl.lower is None and sl.upper is None and sl.step is None and (isinstance(recv.ty, T.List) or (recv.is_py and isinstance(recv.py, list))):
+                    # xs[:] = ys: the list object keeps its identity, its content becomes list(ys)
+                    nv = models._list(self, st, [v], {}, node)
+                    if isinstance(recv.ty, T.List):
+                        nv = coerce(nv, recv.ty)
+                    if isinstance(t.value, ast.Name):
+                        self.check_alias(t.value.id, st, node)
+                    self.assign_target(t.value, nv, st, node, mutate=True)
+                    return
                 raise Unsupported("slice assignment", node)
             idx = self.eval(t.slice, st)
             if isinstance(recv.ty, T.Ref):
@@ -965,6 +1019,8 @@ class StmtMixin:
         cb = z_and(*b.pc[base:])
         if ca is True or cb is True:
             return None
+        if self.c and any(n in self.c.modifies for n in (a.rebound ^ b.rebound)):
+            return None  # a `modifies` parameter re-bound on one side only: what the caller sees differs per path
         c = a.pc[base]
         m = State()
         m.pc = a.pc[:base]
